@@ -17,6 +17,7 @@ def run(rep, tier):
                         'parser']
     mapping.spelling_pairs(rep)
     mapping.bound_spellings(rep)
+    mapping.repeat_mapping(rep)         # e{m,n} / List(e, min_len=m, max_len=n), zero bounds included
     mapping.precedence_rows(rep)
     # the two spellings of a bound reach List as str resp. int: the static flags must be sound for both
     from .. import e1run
